@@ -291,8 +291,8 @@ def corpus_histories():
     #     X, which must then drag Y along (boundary files of the EXPANDED input set)
     ops = ['open', 'put %s @2:1' % hx('c'), 'put %s @2:2' % hx('n'), 'flush', 'put %s @2:3' % hx('d'), 'put %s @2:4' % hx('e'), 'flush',
            'put %s @2:5' % hx('f'), 'put %s @2:6' % hx('p'), 'put %s @2:7' % hx('r'), 'flush', 'layout', 'snap',
-           'put %s @2:8' % hx('m'), 'put %s @1228800:9' % hx('p'), 'flush', 'layout', 'crange 0 %s %s' % (hx('m'), hx('p')), 'layout',
-           'crange 1 %s %s' % (hx('d'), hx('e')), 'layout', 'get %s -' % hx('p'), 'get %s 0' % hx('p'), 'scan -', 'scan 0',
+           'put %s @2:8' % hx('m'), 'put %s @1228800:9' % hx('p'), 'snap', 'flush', 'layout', 'crange 0 %s %s' % (hx('m'), hx('p')), 'layout',
+           'crange 1 %s %s' % (hx('d'), hx('e')), 'layout', 'get %s -' % hx('p'), 'get %s 0' % hx('p'), 'get %s 1' % hx('p'), 'scan -', 'scan 0', 'scan 1',
            'reopen', 'get %s -' % hx('p'), 'layout']
     out.append((dict(BASE_CFG, write_buffer=8388608), ops))
     # (5) log / MANIFEST reuse across many version edits: the reused MANIFEST grows past a 32 KiB block boundary
